@@ -4,17 +4,10 @@ import json, os, subprocess
 V = os.path.dirname(os.path.abspath(__file__))
 ALL = [f"C{i:02d}" for i in range(1, 21)]
 
-CLAIMED = {
- "C07": dict(
-   text="Lean 4 theorems over all (B,E,L) (no size bound beyond the u64/field ranges stated) about a line-by-line model of "
-        "block_partitioning/block_length and of the sender/receiver slicing: equality with the RFC 5052 §9.1 formulas, coverage, "
-        "byte lengths summing to L, no u64 overflow for L<2^48, sender/receiver agreement, RaptorQ/Raptor B reconstruction. "
-        "The model is tied to the current tree by differential execution of the real functions (verif hooks) against the compiled model.",
-   note="Trusted: Lean kernel; axioms propext/Classical.choice/Quot.sound only; the hand-written model (validated on the exhaustive small grid, "
-        "boundary and seeded random triples each run); harness + model driver. num_integer::div_ceil/div_floor modelled from their source.",
-   technique="Lean 4 proof over an executable model + differential correspondence with the Rust functions",
-   design="§5 C07"),
-}
+CLAIMED = {}
+for fn in sorted(os.listdir(os.path.join(V, "props.d"))):
+    if fn.endswith(".json"):
+        CLAIMED[fn[:-5]] = json.load(open(os.path.join(V, "props.d", fn)))["manifest"]
 NA_REASON = "not yet claimed in this commit: model/correspondence under construction (see DESIGN.md §8 order of work)"
 
 def main():
